@@ -78,16 +78,115 @@ def field_of(du, v, depth=0):
     return None
 
 
+def bool_setting_edges(cfg, du, env_name):
+    """(true_edges, false_edges) of the switches that test the boolean parsed from env::var(env_name):
+    `if flag` / `if !flag` with flag = parse().unwrap(), or the `Ok(true)` / `Ok(false)` arms of a `match .. .parse::<bool>()`"""
+    te, fe = [], []
+    for sb in cfg.live_blocks():
+        st = cfg.blocks[sb]["term"]
+        if st["k"] != "switch" or st.get("discr_ty") != "bool":
+            continue
+        v = du.val_operand(st["discr"])
+        neg = False
+        while v[0] == "unop" and v[1] == "Not":
+            v = v[2]; neg = not neg
+        is_flag = (v[0] == "call" and (v[1] or "").endswith("::unwrap")) or \
+                  (v[0] == "place" and any(isinstance(e, tuple) and e[0] == "d" and e[1] == "Ok" for e in v[1][1]))
+        if not is_flag or env_const_of(du, v) != env_name:
+            continue
+        for val, tb in st["targets"]:
+            if val == 0:
+                f_edge, t_edge = (sb, tb), (sb, st["otherwise"])
+                if neg:
+                    f_edge, t_edge = t_edge, f_edge
+                te.append(t_edge); fe.append(f_edge)
+    return te, fe
+
+
+LOOP_OK = re.compile(CLOSURE_OK.pattern + r"|std::iter::Iterator::next|std::iter::IntoIterator::into_iter|.* as std::iter::Iterator>::next|.* as std::iter::IntoIterator>::into_iter|core::str::<impl str>::split|core::slice::<impl \\[T\\]>::iter|std::vec::Vec::<T, A>::(iter|len)|std::iter::Iterator::(map|filter)")
+
+
+def _bool_sources(du, l, seen=None, depth=0):
+    """constant definitions reaching bool local l through copies: list of (block, True|False|None)"""
+    if seen is None:
+        seen = set()
+    if l in seen or depth > 8:
+        return []
+    seen.add(l)
+    out = []
+    for d in du.defs.get(l, []):
+        if d[0] != "assign":
+            out.append((d[1], None)); continue
+        rv = d[3]
+        if rv["k"] == "use":
+            o = rv["ops"][0]
+            if o.get("k") == "const" and isinstance(o.get("v"), bool):
+                out.append((d[1], o["v"]))
+            elif o.get("k") in ("copy", "move") and not o["p"]:
+                out += _bool_sources(du, o["l"], seen, depth + 1)
+            else:
+                out.append((d[1], None))
+        else:
+            out.append((d[1], None))
+    return out
+
+
+def _loop_membership(F, fn, cfg, du, l):
+    """bool local l is `true` exactly where an element-wise string equality has just succeeded inside a loop (a hand-written
+    `for allowed in origins { if allowed.trim() == origin { return true } } false`, possibly an inlined private helper).
+    Returns None when l is not of that shape, else (ok, why)."""
+    from ..inline import origin_of
+    from .. import loops as L
+    src = _bool_sources(du, l)
+    if not src or any(v is None for _, v in src) or not any(v for _, v in src) or not any(v is False for _, v in src):
+        return None
+    lps = L.loops_of(fn)
+    eq_edges = []
+    for sb in cfg.live_blocks():
+        st = cfg.blocks[sb]["term"]
+        if st["k"] != "switch":
+            continue
+        v = du.val_operand(st["discr"])
+        if v[0] == "call" and v[1] and "PartialEq" in v[1] and v[1].endswith("::eq"):
+            for val, tb in st["targets"]:
+                if val == 0:
+                    eq_edges.append((sb, st["otherwise"]))
+    in_loop = False
+    for bid, val in src:
+        if not val:
+            continue
+        if not any(cfg.edge_dominates(e, bid) for e in eq_edges):
+            return None
+        if any(bid in lp.body or any(e[0] in lp.body for e in eq_edges if cfg.edge_dominates(e, bid)) for lp in lps):
+            in_loop = True
+    if not in_loop:
+        return None
+    # every call made by the code that computes the flag is plain: trimming, equality, iteration
+    owners = {origin_of(fn, bid) for bid, val in src}
+    for bid in cfg.live_blocks():
+        if origin_of(fn, bid) in owners and origin_of(fn, bid) != fn.def_:
+            t = cfg.blocks[bid]["term"]
+            if t["k"] == "call":
+                cc = callee_name(t) or ""
+                if SUBSTRING.fullmatch(cc):
+                    return False, "the membership loop calls %s" % cc
+                if not LOOP_OK.fullmatch(cc):
+                    return False, "the membership loop calls %s" % cc
+    return True, ""
+
+
 def run(ctx):
     F, G, R = ctx.F, ctx.G, ctx.R
     chk = Check("C11", ctx.tier, "Grant headers are built only after the Origin-present and exact-membership tests, each from its own setting; the allow-all function is unreachable in restricted mode.")
     chk.technique = "edge dominance of every Access-Control-* construction by the origin / membership tests, classification of the membership operation (equality vs substring), dataflow pairing of header and setting, pruned reachability in the mode switch"
     chk.analysed = ctx.analysed_summary()
     inv = panics.Inventory(ctx)
+    from ..inline import is_private_helper
     cors_fns = []
-    for fn in F.rws_fns():
-        if fn.kind == "Promoted":
+    for fn0 in F.rws_fns():
+        if fn0.kind == "Promoted" or is_private_helper(F, fn0.def_):
             continue
+        fn = ctx.inl(fn0)         # a private header constructor / membership helper is part of the function for these rules (A11)
         aggs = header_aggregates(fn)
         if any(const_str(nv) == ACAO for _, _, nv, _ in aggs):
             cors_fns.append(fn)
@@ -96,8 +195,8 @@ def run(ctx):
         r0.instance({"fn": fn.def_})
     restricted, allow_all = [], []
     r1 = chk.rule("R1-membership-is-equality", "in restricted mode the boolean that gates the grant is an element-wise equality test between the request origin and the configured origins (no substring / prefix / case-insensitive operation)", floor=2)
-    r2 = chk.rule("R2-grants-after-checks", "every Access-Control-* header is built in a block dominated by 'Origin header present' and, in restricted mode, by the membership test's true edge", floor=15)
-    r3 = chk.rule("R3-header-setting-pairing", "each restricted-mode grant takes its value from its own setting (environment variable constant or Cors field); allow-all echoes the request's origin with credentials 'true'", floor=10)
+    r2 = chk.rule("R2-grants-after-checks", "every Access-Control-* header is built in a block dominated by 'Origin header present' and, in restricted mode, by the membership test's true edge", floor=3)
+    r3 = chk.rule("R3-header-setting-pairing", "each restricted-mode grant takes its value from its own setting (environment variable constant or Cors field); allow-all echoes the request's origin with credentials 'true'", floor=3)
     for fn in cors_fns:
         cfg = cfg_of(fn)
         du = du_of(fn)
@@ -123,6 +222,17 @@ def run(ctx):
             neg = False
             while v[0] == "unop" and v[1] == "Not":
                 v = v[2]; neg = not neg
+            if v[0] == "place" and not v[1][1]:
+                lm = _loop_membership(F, fn, cfg, du, v[1][0])
+                if lm is not None:
+                    ok_lm, why_lm = lm
+                    for val, tb in st["targets"]:
+                        if val == 0:
+                            member_edges.append((sb, st["otherwise"]) if not neg else (sb, tb))
+                    member_desc.append({"op": "explicit loop with string equality", "closure_ok": ok_lm, "line": st["span"]["line"]})
+                    if not ok_lm:
+                        bad_member.append((sb, why_lm, st["span"]["line"]))
+                continue
             if v[0] != "call" or not v[1]:
                 continue
             is_member = bool(MEMBERSHIP_OK.fullmatch(v[1]))
@@ -201,6 +311,11 @@ def run(ctx):
                     e = env_const_of(du, vv)
                     f = field_of(du, vv)
                     ok = (e == env_c) or (f == fld)
+                    if not ok and const_str(vv) in ("true", True) or (not ok and vv[0] == "call" and vv[2] and vv[2][0][0] == "const" and vv[2][0][1] is True):
+                        # the literal `true` built only where the parsed setting is true: `Ok(true) => Header{ .., value: true.to_string() }`
+                        te, _ = bool_setting_edges(cfg, du, env_c)
+                        if te and cfg.edges_dominate(te, bid):
+                            ok, e = True, env_c + " (value `true` under the setting's true arm)"
                     r3.instance({"fn": fn.def_, "header": hn, "env": e, "field": f}, ok)
                     if not ok:
                         r3.violate("C11|R3|%s|%s" % (fn.def_, hn), "%s: %s takes its value from %s, not from %s / Cors.%s" % (fn.def_, hn, e or f, env_c, fld), s["span"]["file"], s["span"]["line"], fn.def_)
@@ -234,11 +349,8 @@ def run(ctx):
             neg = False
             while v[0] == "unop" and v[1] == "Not":
                 v = v[2]; neg = not neg
-            if env_const_of(du, v) == "RWS_CONFIG_CORS_ALLOW_ALL" and v[0] == "call" and (v[1] or "").endswith("::unwrap"):
-                for val, tb in st["targets"]:
-                    if val == 0:
-                        # discr false: flag false if not negated
-                        restricted_edges.append((sb, tb) if not neg else (sb, st["otherwise"]))
+            pass
+        _, restricted_edges = bool_setting_edges(cfg, du, "RWS_CONFIG_CORS_ALLOW_ALL")
         if not restricted_edges:
             r4.violate("C11|R4|%s|no-switch" % fn.def_, "%s calls both CORS modes but never tests the parsed allow-all setting" % fn.def_, fn.file, fn.span["line"], fn.def_)
             continue
